@@ -47,6 +47,11 @@ CHECKS.update({
              'sequence is replayed on the real FileLock and every step (result, is_locked, descriptor count, in-process lock owner, duration) compared by TLC with Apply().',
              'operation sequences generated by TLC from the TLA+ reference model LockRef.tla are replayed into the real FileLock; recorded steps are validated by TLC against the same model'),
 })
+CHECKS['C13'] = comp('CrashTrace.tla', 'A forked victim process is SIGKILLed at every line event inside aiuti/filelock.py (blocking, timed, with, reentrant-nested, '
+    'acquire_ctx, forced release, contended timed; also with a FileLock object inherited across fork) with 0..2 live contender processes; afterwards a fresh '
+    'process must acquire within 2 s and the survivors must keep excluding each other; TLC validates every history (C13_StuckAfterCrash, C13_PromptAfterCrash, C13_SurvivorsExclusive).',
+    'crash-point enumeration with real processes and the real flock(2); histories validated by TLC against CrashTrace.tla')
+CHECKS['C13']['category'] = 'fault_enumeration'
 PENDING_REASON = 'check not built yet in this session (planned: see DESIGN.md §5); not a claim that the technique cannot apply'
 PENDING = {('C%02d' % i): PENDING_REASON for i in range(1, 21)}
 ENGINES = [
